@@ -2,12 +2,19 @@
   C <hex|-> <init>            zlib.crc32(data, init)           (the crc32 that messages/defs.py imports)
   S <hex|-> <k>               crc32(b[k:], crc32(b[:k]))
   HC t:v:seq:src:hex          MessageHeader.calculate_crc(payload) -> "<crc> <payload_size_bytes>" | ERR:<exc>
-  ENC <seq0> t:v:src:hex,...  one encoder, sequence_number preset to seq0, one encode_message per call on a payload
+  ENC <seq0> t:v:src:hex[:form],...  one encoder, sequence_number preset to seq0, one encode_message per call on a payload
                               object exposing get_type/get_version/pack -> outputs (hex|ERR:<exc>) joined by ',', final counter
   CLASSES                     names of registered payload classes whose default instance packs
   ENCOBJ <seq0> <src> <Class> encode a default instance -> "<out hex> <type> <version> <payload hex>"
   VV <hdrmsg hex> <off> <buf hex>...  one MessageHeader parsed from hdrmsg, validate_crc(buf, off) on each buffer in turn
                               -> outcomes joined by ',', then the header's crc and payload_size_bytes afterwards
+  HH <op> ...                 a history on ONE MessageHeader object; ops (fields separated by ':'):
+                              N:t new header of type t | S:ver:seq:src[:crc:reserved] set fields | F fields dump
+                              U:hex unpack(validate_crc=True) | V:hex:off validate_crc(buf, off) | C:hex:form calculate_crc
+                              P pack() | Q:hex:form pack(payload=) | B:hex:off:len pack(buffer=0xEE*len, offset=off, payload=)
+                              form: b bytes, a bytearray, m memoryview.  Arguments must come back unmodified ("!..." otherwise)
+  ST <opts> <chunking> <hex>  one FusionEngineDecoder fed the stream; opts k=v,... (woe warn_on_error, wu, wg, rb, ro, log);
+                              chunking all | ints | n1,n2,... ; -> "<len>#<seq>#<crc>[@off];..." | EXC:<type>, then flags
   B <hex> / E <off> <xorhex> ...  analysis of the (corrupted) base: V=<ok|big|notenough|mismatch|short> D=<off:len;...|->
                               V: MessageHeader().unpack(buf, validate_crc=True); D: FusionEngineDecoder().on_data(buf)
 """
@@ -36,6 +43,141 @@ class Raw:
         return self.data
 
 
+def form(data, f):
+    return data if f == 'b' else (bytearray(data) if f == 'a' else memoryview(data))
+
+
+def outcome(fn):
+    try:
+        fn()
+        return 'ok'
+    except ValueError as e:
+        t = str(e)
+        return 'big' if 'sanity' in t else ('notenough' if 'Not enough data' in t else 'mismatch' if 'CRC mismatch' in t else 'ValueError')
+    except struct.error:
+        return 'short'
+    except Exception as e:
+        return 'EXC:' + type(e).__name__
+
+
+def history(ops):
+    h = MessageHeader()
+    out, dead = [], False
+    for op in ops:
+        w = op.split(':')
+        if dead:
+            out.append('-'); continue
+        try:
+            if w[0] == 'N':
+                h = MessageHeader(int(w[1])); r = 'new'
+            elif w[0] == 'S':
+                h.message_version, h.sequence_number, h.source_identifier = int(w[1]), int(w[2]), int(w[3])
+                if len(w) > 4:
+                    h.crc, h.reserved = int(w[4]), int(w[5])
+                r = 'set'
+            elif w[0] == 'F':
+                r = ','.join(str(int(x)) for x in (h.reserved, h.crc, h.protocol_version, h.message_version, h.message_type,
+                                                   h.sequence_number, h.payload_size_bytes, h.source_identifier))
+            elif w[0] == 'U':
+                b = unhex(w[1]); r = outcome(lambda: h.unpack(b, validate_crc=True, warn_on_unrecognized=False))
+            elif w[0] == 'V':
+                b = unhex(w[1]); keep = bytes(b)
+                arg = [b, bytearray(b), memoryview(b)][len(b) % 3]
+                r = outcome(lambda: h.validate_crc(arg, int(w[2])))
+                if bytes(arg) != keep:
+                    r += '!buffer-modified'
+            elif w[0] in ('C', 'Q', 'B'):
+                data = unhex(w[1]); arg = form(data, w[2] if w[0] != 'B' else 'b')
+                if w[0] == 'C':
+                    r = str(h.calculate_crc(arg))
+                elif w[0] == 'Q':
+                    res = h.pack(payload=arg)
+                    r = bytes(res).hex()
+                    if isinstance(arg, bytearray) and isinstance(res, bytearray):
+                        res[-1:] = b'\x00' if res[-1:] != b'\x00' else b'\x01'
+                        if bytes(arg) != data:
+                            r += '!result-aliases-payload'
+                else:
+                    off, blen = int(w[2]), int(w[3])
+                    buf = bytearray(b'\xee' * blen)
+                    ret = h.pack(buffer=buf, offset=off, payload=data)
+                    r = bytes(buf).hex()
+                    if len(buf) != blen:
+                        r += '!buffer-resized'
+                    if ret is not buf and bytes(ret) != bytes(buf):
+                        r += '!returned-buffer-differs'
+                if bytes(arg) != data:
+                    r += '!payload-modified'
+            elif w[0] == 'P':
+                r = bytes(h.pack()).hex()
+            else:
+                r = '?'
+        except struct.error:
+            r, dead = 'ERR', True
+        except Exception as e:
+            r, dead = 'EXC:' + type(e).__name__, True
+        out.append(r)
+    return ' '.join(out)
+
+
+import io
+_FE_LOGGER = logging.getLogger('point_one.fusion_engine')
+_LOG_SINK = logging.StreamHandler(io.StringIO())
+
+
+def stream(opts, chunking, data):
+    o = dict(kv.split('=') for kv in opts.split(',') if kv)
+    woe = {'none': 'none', 'likely': 'likely', 'all': 'all', 'True': True, 'False': False,
+           'NONE': FusionEngineDecoder.WarnOnError.NONE, 'LIKELY': FusionEngineDecoder.WarnOnError.LIKELY, 'ALL': FusionEngineDecoder.WarnOnError.ALL}[o.get('woe', 'NONE')]
+    rb, ro = o.get('rb', '1') == '1', o.get('ro', '1') == '1'
+    lvl = {'off': None, 'warn': logging.WARNING, 'debug': logging.DEBUG, 'trace': 1}[o.get('log', 'off')]
+    old_level = _FE_LOGGER.level
+    if lvl is not None:
+        logging.disable(logging.NOTSET)
+        _LOG_SINK.stream = io.StringIO()
+        _FE_LOGGER.addHandler(_LOG_SINK); _FE_LOGGER.setLevel(lvl); _FE_LOGGER.propagate = False
+    flags = []
+    try:
+        d = FusionEngineDecoder(warn_on_error=woe, warn_on_unrecognized=o.get('wu', '0') == '1', warn_on_gap=o.get('wg', '0') == '1',
+                                return_bytes=rb, return_offset=ro)
+        seen = []
+        d.add_callback(None, lambda *a: seen.append(a))
+        if chunking == 'all':
+            chunks = [data]
+        elif chunking == 'ints':
+            chunks = list(data)
+        else:
+            sizes, chunks, i, k = [int(x) for x in chunking.split(',')], [], 0, 0
+            while i < len(data):
+                n = max(1, sizes[k % len(sizes)]); chunks.append(data[i:i + n]); i += n; k += 1
+        results, snaps = [], []
+        for c in chunks:
+            for r in d.on_data(c):
+                results.append(r)
+                snaps.append((bytes(r[2]) if rb else None, bytes(r[1]) if isinstance(r[1], (bytes, bytearray)) else None))
+        fr = []
+        for r, (raw, pl) in zip(results, snaps):
+            h = r[0]
+            t = '%d#%d#%d' % (24 + h.payload_size_bytes, h.sequence_number, h.crc)
+            if ro:
+                t += '@%d' % r[-1]
+            fr.append(t)
+            if rb and (bytes(r[2]) != raw or len(raw) != 24 + h.payload_size_bytes):
+                flags.append('!returned-bytes-changed-later')
+            if pl is not None and bytes(r[1]) != pl:
+                flags.append('!returned-payload-changed-later')
+        if len(seen) != len(results):
+            flags.append('!callbacks=%d' % len(seen))
+        out = ';'.join(fr) or '-'
+    except Exception as e:
+        out = 'EXC:' + type(e).__name__
+    finally:
+        if lvl is not None:
+            _FE_LOGGER.removeHandler(_LOG_SINK); _FE_LOGGER.setLevel(old_level); _FE_LOGGER.propagate = True
+            logging.disable(logging.CRITICAL)
+    return out + ''.join(sorted(set(flags)))
+
+
 def unhex(h):
     return bytes.fromhex('' if h == '-' else h)
 
@@ -50,9 +192,14 @@ def analysis(buf):
         v = 'big' if 'sanity' in s else ('notenough' if 'Not enough data' in s else 'mismatch' if 'CRC mismatch' in s else 'ValueError:' + s[:30].replace(' ', '_'))
     except struct.error:
         v = 'short'
+    except Exception as e:
+        v = 'EXC:' + type(e).__name__
     d = FusionEngineDecoder(warn_on_error=FusionEngineDecoder.WarnOnError.NONE, return_bytes=True, return_offset=True)
-    res = d.on_data(buf)
-    fr = ';'.join('%d:%d' % (r[3], len(r[2])) for r in res) or '-'
+    try:
+        res = d.on_data(buf)
+        fr = ';'.join('%d:%d' % (r[3], len(r[2])) for r in res) or '-'
+    except Exception as e:
+        fr = 'EXC:' + type(e).__name__
     return 'V=%s D=%s' % (v, fr)
 
 
@@ -83,9 +230,21 @@ def main():
                 enc.sequence_number = int(w[1])
                 outs = []
                 for c in w[2].split(','):
-                    t, v, src, hx = c.split(':')
+                    f = c.split(':')
+                    t, v, src, hx = f[:4]
+                    data = unhex(hx)
+                    arg = form(data, f[4] if len(f) > 4 else 'b')
+                    obj = Raw(int(t), int(v), arg)
                     try:
-                        outs.append(bytes(enc.encode_message(Raw(int(t), int(v), unhex(hx)), int(src))).hex())
+                        res = enc.encode_message(obj, int(src))
+                        o = bytes(res).hex()
+                        if bytes(arg) != data or obj.data is not arg:
+                            o += '!payload-modified'
+                        if isinstance(res, bytearray) and isinstance(arg, bytearray):
+                            res[-1:] = b'\x00' if res[-1:] != b'\x00' else b'\x01'
+                            if bytes(arg) != data:
+                                o += '!result-aliases-payload'
+                        outs.append(o)
                     except Exception as e:
                         outs.append('ERR:' + type(e).__name__)
                 r = ','.join(outs) + ' ' + str(getattr(enc, 'sequence_number', '?'))
@@ -107,6 +266,10 @@ def main():
                 enc.sequence_number = int(w[1])
                 data = enc.encode_message(o, int(w[2]))
                 r = '%s %d %d %s' % (bytes(data).hex(), int(o.get_type()), int(o.get_version()), bytes(o.pack()).hex() or '-')
+            elif w[0] == 'HH':
+                r = history(w[1:])
+            elif w[0] == 'ST':
+                r = stream(w[1], w[2], unhex(w[3]))
             elif w[0] == 'VV':
                 # one header object (parsed from w[1]) validating a sequence of buffers at offset w[2]
                 h = MessageHeader()
